@@ -345,6 +345,218 @@ func renderTemplate(r *Row, t interface{}) interface{} {
 	return nil
 }
 
+// Step applies one statement to a list of rows (everything except the
+// order-sensitive tail steps and mark/jump, which the callers handle).
+func (g *Graph) Step(gs *gripql.GraphStatement, rows []*Row) ([]*Row, error) {
+	var next []*Row
+	switch st := gs.GetStatement().(type) {
+	case *gripql.GraphStatement_V:
+		ids := strList(st.V)
+		if len(ids) == 0 {
+			for _, v := range sortedElems(g.V) {
+				next = append(next, rows[0].withCur(v))
+			}
+		} else {
+			for _, id := range ids {
+				if v, ok := g.V[id]; ok {
+					next = append(next, rows[0].withCur(v))
+				}
+			}
+		}
+	case *gripql.GraphStatement_E:
+		ids := strList(st.E)
+		if len(ids) == 0 {
+			for _, e := range sortedElems(g.E) {
+				next = append(next, rows[0].withCur(e))
+			}
+		} else {
+			for _, id := range ids {
+				if e, ok := g.E[id]; ok {
+					next = append(next, rows[0].withCur(e))
+				}
+			}
+		}
+	case *gripql.GraphStatement_Out:
+		for _, r := range rows {
+			next = append(next, g.adj(r, "out", false, strList(st.Out))...)
+		}
+	case *gripql.GraphStatement_In:
+		for _, r := range rows {
+			next = append(next, g.adj(r, "in", false, strList(st.In))...)
+		}
+	case *gripql.GraphStatement_Both:
+		for _, r := range rows {
+			next = append(next, g.adj(r, "both", false, strList(st.Both))...)
+		}
+	case *gripql.GraphStatement_OutE:
+		for _, r := range rows {
+			next = append(next, g.adj(r, "out", true, strList(st.OutE))...)
+		}
+	case *gripql.GraphStatement_InE:
+		for _, r := range rows {
+			next = append(next, g.adj(r, "in", true, strList(st.InE))...)
+		}
+	case *gripql.GraphStatement_BothE:
+		for _, r := range rows {
+			next = append(next, g.adj(r, "both", true, strList(st.BothE))...)
+		}
+	case *gripql.GraphStatement_Has:
+		for _, r := range rows {
+			r := r
+			if EvalHas(st.Has, r.lookupNull) {
+				next = append(next, r)
+			}
+		}
+	case *gripql.GraphStatement_HasLabel:
+		ls := strList(st.HasLabel)
+		for _, r := range rows {
+			if inList(ls, r.Cur.Label) {
+				next = append(next, r)
+			}
+		}
+	case *gripql.GraphStatement_HasId:
+		ls := strList(st.HasId)
+		for _, r := range rows {
+			if inList(ls, r.Cur.ID) {
+				next = append(next, r)
+			}
+		}
+	case *gripql.GraphStatement_HasKey:
+		ks := strList(st.HasKey)
+		for _, r := range rows {
+			all := true
+			for _, k := range ks {
+				if _, ok := r.Lookup(k); !ok {
+					all = false
+				}
+			}
+			if all {
+				next = append(next, r)
+			}
+		}
+	case *gripql.GraphStatement_As:
+		for _, r := range rows {
+			n := *r
+			n.Marks = map[string]*Elem{}
+			for k, v := range r.Marks {
+				n.Marks[k] = v
+			}
+			n.Marks[st.As] = r.Cur
+			next = append(next, &n)
+		}
+	case *gripql.GraphStatement_Select:
+		ms := st.Select.GetMarks()
+		for _, r := range rows {
+			if len(ms) == 1 {
+				next = append(next, r.withCur(r.Marks[ms[0]]))
+			} else {
+				sel := map[string]*Elem{}
+				for _, m := range ms {
+					sel[m] = r.Marks[m]
+				}
+				next = append(next, &Row{Selection: sel})
+			}
+		}
+	case *gripql.GraphStatement_Fields:
+		keys := strList(st.Fields)
+		for _, r := range rows {
+			n := *r
+			c := *r.Cur
+			c.Data = selectFields(r.Cur.Data, keys)
+			n.Cur = &c
+			next = append(next, &n)
+		}
+	case *gripql.GraphStatement_Render:
+		tmpl := st.Render.AsInterface()
+		for _, r := range rows {
+			next = append(next, &Row{IsRender: true, Render: renderTemplate(r, tmpl)})
+		}
+	case *gripql.GraphStatement_Path:
+		for _, r := range rows {
+			next = append(next, &Row{IsPath: true, Path: r.Path})
+		}
+	case *gripql.GraphStatement_Unwind:
+		for _, r := range rows {
+			v, _ := r.Lookup(st.Unwind)
+			l, isList := v.([]interface{})
+			vals := []interface{}{nil}
+			if isList && len(l) > 0 {
+				vals = l
+			}
+			for _, x := range vals {
+				c := r.Cur.Clone()
+				if c.Data == nil {
+					c.Data = map[string]interface{}{}
+				}
+				c.Data[st.Unwind] = cloneJSON(x)
+				next = append(next, r.withCur(c))
+			}
+		}
+	case *gripql.GraphStatement_Set:
+		val := st.Set.GetValue().AsInterface()
+		for _, r := range rows {
+			next = append(next, r.setValue(st.Set.GetKey(), func(interface{}) interface{} { return cloneJSON(val) }))
+		}
+	case *gripql.GraphStatement_Increment:
+		inc := float64(st.Increment.GetValue())
+		for _, r := range rows {
+			next = append(next, r.setValue(st.Increment.GetKey(), func(old interface{}) interface{} {
+				f, _ := Num(old)
+				return f + inc
+			}))
+		}
+	default:
+		return nil, ErrUnmodelled{StepName(gs)}
+	}
+	return next, nil
+}
+
+func (r *Row) cloneMarks() map[string]*Elem {
+	m := map[string]*Elem{}
+	for k, v := range r.Marks {
+		m[k] = v
+	}
+	return m
+}
+
+// setValue implements set()/increment(): the key addresses the current
+// element or a mark ($m.k); the addressed element is copied before it is
+// changed, so rows never share a counter.
+func (r *Row) setValue(key string, f func(old interface{}) interface{}) *Row {
+	n := *r
+	n.Marks = r.cloneMarks()
+	parts := strings.Split(key, ".")
+	target := &n.Cur
+	if strings.HasPrefix(parts[0], "$") {
+		ns := strings.TrimPrefix(parts[0], "$")
+		parts = parts[1:]
+		if ns != "" {
+			e := n.Marks[ns]
+			if e == nil {
+				return &n
+			}
+			c := e.Clone()
+			n.Marks[ns] = c
+			if len(parts) == 1 {
+				if c.Data == nil {
+					c.Data = map[string]interface{}{}
+				}
+				c.Data[parts[0]] = f(c.Data[parts[0]])
+			}
+			return &n
+		}
+	}
+	if *target != nil && len(parts) == 1 {
+		c := (*target).Clone()
+		if c.Data == nil {
+			c.Data = map[string]interface{}{}
+		}
+		c.Data[parts[0]] = f(c.Data[parts[0]])
+		n.Cur = c
+	}
+	return &n
+}
+
 // Expect is what the model predicts for a program.
 type Expect struct {
 	Type Type
@@ -378,152 +590,9 @@ func Eval(g *Graph, stmts []*gripql.GraphStatement) (*Expect, error) {
 		if isTailStep(gs) {
 			break
 		}
-		var next []*Row
-		switch st := gs.GetStatement().(type) {
-		case *gripql.GraphStatement_V:
-			ids := strList(st.V)
-			if len(ids) == 0 {
-				for _, v := range sortedElems(g.V) {
-					next = append(next, rows[0].withCur(v))
-				}
-			} else {
-				for _, id := range ids {
-					if v, ok := g.V[id]; ok {
-						next = append(next, rows[0].withCur(v))
-					}
-				}
-			}
-		case *gripql.GraphStatement_E:
-			ids := strList(st.E)
-			if len(ids) == 0 {
-				for _, e := range sortedElems(g.E) {
-					next = append(next, rows[0].withCur(e))
-				}
-			} else {
-				for _, id := range ids {
-					if e, ok := g.E[id]; ok {
-						next = append(next, rows[0].withCur(e))
-					}
-				}
-			}
-		case *gripql.GraphStatement_Out:
-			for _, r := range rows {
-				next = append(next, g.adj(r, "out", false, strList(st.Out))...)
-			}
-		case *gripql.GraphStatement_In:
-			for _, r := range rows {
-				next = append(next, g.adj(r, "in", false, strList(st.In))...)
-			}
-		case *gripql.GraphStatement_Both:
-			for _, r := range rows {
-				next = append(next, g.adj(r, "both", false, strList(st.Both))...)
-			}
-		case *gripql.GraphStatement_OutE:
-			for _, r := range rows {
-				next = append(next, g.adj(r, "out", true, strList(st.OutE))...)
-			}
-		case *gripql.GraphStatement_InE:
-			for _, r := range rows {
-				next = append(next, g.adj(r, "in", true, strList(st.InE))...)
-			}
-		case *gripql.GraphStatement_BothE:
-			for _, r := range rows {
-				next = append(next, g.adj(r, "both", true, strList(st.BothE))...)
-			}
-		case *gripql.GraphStatement_Has:
-			for _, r := range rows {
-				r := r
-				if EvalHas(st.Has, r.lookupNull) {
-					next = append(next, r)
-				}
-			}
-		case *gripql.GraphStatement_HasLabel:
-			ls := strList(st.HasLabel)
-			for _, r := range rows {
-				if inList(ls, r.Cur.Label) {
-					next = append(next, r)
-				}
-			}
-		case *gripql.GraphStatement_HasId:
-			ls := strList(st.HasId)
-			for _, r := range rows {
-				if inList(ls, r.Cur.ID) {
-					next = append(next, r)
-				}
-			}
-		case *gripql.GraphStatement_HasKey:
-			ks := strList(st.HasKey)
-			for _, r := range rows {
-				all := true
-				for _, k := range ks {
-					if _, ok := r.Lookup(k); !ok {
-						all = false
-					}
-				}
-				if all {
-					next = append(next, r)
-				}
-			}
-		case *gripql.GraphStatement_As:
-			for _, r := range rows {
-				n := *r
-				n.Marks = map[string]*Elem{}
-				for k, v := range r.Marks {
-					n.Marks[k] = v
-				}
-				n.Marks[st.As] = r.Cur
-				next = append(next, &n)
-			}
-		case *gripql.GraphStatement_Select:
-			ms := st.Select.GetMarks()
-			for _, r := range rows {
-				if len(ms) == 1 {
-					next = append(next, r.withCur(r.Marks[ms[0]]))
-				} else {
-					sel := map[string]*Elem{}
-					for _, m := range ms {
-						sel[m] = r.Marks[m]
-					}
-					next = append(next, &Row{Selection: sel})
-				}
-			}
-		case *gripql.GraphStatement_Fields:
-			keys := strList(st.Fields)
-			for _, r := range rows {
-				n := *r
-				c := *r.Cur
-				c.Data = selectFields(r.Cur.Data, keys)
-				n.Cur = &c
-				next = append(next, &n)
-			}
-		case *gripql.GraphStatement_Render:
-			tmpl := st.Render.AsInterface()
-			for _, r := range rows {
-				next = append(next, &Row{IsRender: true, Render: renderTemplate(r, tmpl)})
-			}
-		case *gripql.GraphStatement_Path:
-			for _, r := range rows {
-				next = append(next, &Row{IsPath: true, Path: r.Path})
-			}
-		case *gripql.GraphStatement_Unwind:
-			for _, r := range rows {
-				v, _ := r.Lookup(st.Unwind)
-				l, isList := v.([]interface{})
-				vals := []interface{}{nil}
-				if isList && len(l) > 0 {
-					vals = l
-				}
-				for _, x := range vals {
-					c := r.Cur.Clone()
-					if c.Data == nil {
-						c.Data = map[string]interface{}{}
-					}
-					c.Data[st.Unwind] = cloneJSON(x)
-					next = append(next, r.withCur(c))
-				}
-			}
-		default:
-			return nil, ErrUnmodelled{StepName(gs)}
+		next, err := g.Step(gs, rows)
+		if err != nil {
+			return nil, err
 		}
 		rows = next
 	}
